@@ -13,9 +13,11 @@ package sniffing
 //@   requires s.buf != nil
 //@   modifies *
 //@   let bb() = s.buf.Bytes()
-//@   at return 1 assert s.buf.Len() < 5
-//@   at return 2 assert bb()[0] != ContentType_HandShake || bb()[1] != 3
-//@   at return 3 assert len(bb()) - 5 < bb()[3] * 256 + bb()[4]
+// (stated over the results, not over return positions: an answer given by SniffTls itself - before the walk is
+// entered - is justified by the record header)
+//@   ensures calls("extractSniFromTls") == 0 && result1 == ErrNotApplicable ==> old(s.buf.Len() < 5 || bb()[0] != ContentType_HandShake || bb()[1] != 3)
+//@   ensures calls("extractSniFromTls") == 0 && result1 == ErrNeedMore ==> old(s.buf.Len() >= 5 && len(bb()) - 5 < bb()[3] * 256 + bb()[4])
+//@   ensures calls("extractSniFromTls") == 0 ==> result1 == ErrNotApplicable || result1 == ErrNeedMore
 // the ClientHello walk is given exactly the body of the first record - the announced number of bytes after
 // the 5-byte record header - and nothing that follows it in the buffer
 //@   at call extractSniFromTls#1 assert len(unbox(a0, "quicutils.BuiltinBytesLocator")) == length && length == bb()[3] * 256 + bb()[4] && unbox(a0, "quicutils.BuiltinBytesLocator").$base == bb().$base && unbox(a0, "quicutils.BuiltinBytesLocator").$off == bb().$off + 5
